@@ -96,6 +96,10 @@ func init() {
 			for _, u := range enum.SeqUnits("tok", "full", len(enum.SigmaFull), n, 2) {
 				us = append(us, core.Unit{Name: u})
 			}
+			// bare words built from escape sequences and the characters they protect, in every value slot
+			for _, u := range enum.SeqUnits("bytes", "esc", len(enum.ByteAlphabets["esc"]), n, 1) {
+				us = append(us, core.Unit{Name: "word|" + u})
+			}
 			return us
 		},
 		Run: func(w *core.Worker, tier, unit string) {
@@ -105,6 +109,18 @@ func init() {
 				}
 			}
 			switch {
+			case strings.HasPrefix(unit, "word|"):
+				inner := strings.TrimPrefix(unit, "word|")
+				alpha := enum.UnitAlphabet(inner)
+				enum.EnumSeqUnit(inner, len(alpha), func(seq []int) {
+					wd := enum.Join(alpha, seq, "")
+					if wd == "" {
+						return
+					}
+					for _, frame := range []string{"%s", "f : %s", "f : [ %s TO 5 ]", "f : { a TO %s }", "f : ( %s OR y )", "f : > %s", "%s : v"} {
+						do(fmt.Sprintf(frame, wd))
+					}
+				})
 			case strings.HasPrefix(unit, "jtree|"):
 				d := strings.Split(unit, "|")[1]
 				sub := treeSet("json0")
@@ -124,7 +140,7 @@ func init() {
 		Eval:   c12Eval,
 		Shrink: shrinkTokens,
 		Rule: "accepted texts of TREE(L_json,d) (L_full plus the codec's corner values: empty strings, quoted * ? and /x/, escaped /, 5.0, 1e3, -0, int64 extremes, non-ASCII, a word spelling \"min\":\"max\":, float/open/empty range bounds; fuzzy 0/1/3, boost 1/2.5) " +
-			"and accepted members of TOK(Σ_full,N), each with and without a default field; non-trivial = accepted; distinct = distinct JSON encodings",
+			"and accepted members of TOK(Σ_full,N) and of WORDS(B_esc,N) x 7 value slots (bare words built from \\\\ \\* \\? * ? \\/ / escaped blank and quote), each with and without a default field; non-trivial = accepted; distinct = distinct JSON encodings",
 		Assumptions: []string{"DeepEqual is demanded only when every leaf has the kind the decoder infers from its JSON text (computed from the original tree), as the statement says"},
 		Bounds: func(tier string) map[string]any {
 			if tier == "thorough" {
